@@ -19,6 +19,7 @@ EXPLANATION = (
     "(`:` -> that dimension of the source, index vector -> its length, mask -> its number of true entries, scalar -> 1). Out-of-range numeric indices go "
     "through nalgebra's checked indexing and `ix - 1` on usize (no clamping/unchecked access is searched for). Not decided: result kind conventions, as_index conversion."
     ' (R6) the per-variant arms of Value::as_vecusize/as_usize keep their frozen sibling partition.'
+    ' (R2, extended) bulk slice writes of the output (`clone_from_slice`, `copy_from_slice`, `fill` ...) are modelled and reported next to the element-wise gather, as is a gather that only runs under a condition on the index values.'
 )
 
 FORMS = {"Scalar": "S", "Range": "R", "All": "A"}
